@@ -112,11 +112,13 @@ func c08Scenarios(tier string) []*Scenario {
 		cached, closable bool
 		interval         int64
 		twoClosers       bool
+		deriver          bool // a goroutine derives scopes from an open subscope while Close runs (2 registry shards)
 	}
-	vs := []variant{{true, true, 1e9, false}, {false, false, 1e9, false}, {true, true, 1e9, true}}
+	vs := []variant{{cached: true, closable: true, interval: 1e9}, {interval: 1e9}, {cached: true, closable: true, interval: 1e9, twoClosers: true},
+		{interval: 0, deriver: true}}
 	if tier == "thorough" {
-		vs = append(vs, variant{true, false, 1e9, false}, variant{false, true, 1e9, false}, variant{true, true, 0, false}, variant{false, false, 0, false},
-			variant{false, false, 0, true}, variant{false, true, 1e9, true})
+		vs = append(vs, variant{cached: true, interval: 1e9}, variant{closable: true, interval: 1e9}, variant{cached: true, closable: true}, variant{},
+			variant{twoClosers: true}, variant{closable: true, interval: 1e9, twoClosers: true}, variant{cached: true, interval: 1e9, deriver: true})
 	}
 	for _, v := range vs {
 		v := v
@@ -124,12 +126,19 @@ func c08Scenarios(tier string) []*Scenario {
 		if v.twoClosers {
 			name += "-two-closers"
 		}
+		if v.deriver {
+			name += "-deriver"
+		}
 		out = append(out, &Scenario{
 			Property: "C08", Name: name, Ticks: tierInt(tier, 1, 2),
 			Body: func(x *Run) {
 				rec := &Recorder{CloseErr: errSentinel}
 				x.Rec = rec
-				root, closer := tally.VerifNewRootScope(scopeOpts(rec, v.cached, v.closable), timeDur(v.interval), 1)
+				shards := uint(1)
+				if v.deriver {
+					shards = 2
+				}
+				root, closer := tally.VerifNewRootScope(scopeOpts(rec, v.cached, v.closable), timeDur(v.interval), shards)
 				s1 := root.Tagged(map[string]string{"a": "1"})
 				s2 := root.SubScope("x")
 				c0, c1, c2, g := root.Counter("c"), s1.Counter("c"), s2.Counter("c"), s1.Gauge("g")
@@ -148,8 +157,28 @@ func c08Scenarios(tier string) []*Scenario {
 						rec.Mark("closeB-returned")
 					})
 				}
+				var derived []tally.Scope
+				var dth *rt.Thread
+				if v.deriver {
+					dth = rt.GoNamed("deriver", func() {
+						for _, n := range []string{"e0", "e1", "e2"} {
+							derived = append(derived, s1.SubScope(n))
+						}
+					})
+				}
 				x.Vals["err"] = closer.Close()
 				rec.Mark("close-returned")
+				if dth != nil {
+					dth.Join()
+					// whatever was derived while Close ran: scopes obtained from it now, after Close
+					// has returned, must be inert and nothing recorded on them may reach the reporter
+					for _, e := range derived {
+						// (inertness is judged by what reaches the reporter: a child of the inert
+						// scope is a different object than the inert scope itself)
+						z := e.SubScope("z")
+						z.Timer("t").Record(1)
+					}
+				}
 				if other != nil {
 					other.Join()
 					x.Vals["errB"] = errB
